@@ -97,21 +97,33 @@ __CPROVER_assigns(OUT_FRAME, PI_FRAME, ERR_FRAME, num_pus->size)
 #define DECODE decode_balanced_distribution
 #endif
 
-#ifdef U_NUMA
+#ifdef U_NUMA_PAIR
 //@FUNC
 void decode_numabalanced_distribution(struct topo *t, struct maskvec *affinities, size_t used_cores, size_t max_cores,
-                                 struct szvec *num_pus, bool use_process_mask, struct error_code *ec)
+                                      struct szvec *num_pus, bool use_process_mask, struct error_code *ec)
 __CPROVER_requires(!vx_exc && g_errors == 0 && ec->value == pika_error_success && !g_invalid_pair)
 /* the caller (affinity_data::init) passes freshly cleared masks */
 __CPROVER_requires(g_k_mask.kind == MK_EMPTY)
-/* thread counts are bounded so that the per-socket shares cannot wrap around */
 __CPROVER_requires(affinities->size <= VX_BIG)
-/* num_pus has one entry per worker */
-__CPROVER_ensures(vx_exc || num_pus->size == affinities->size)
 /* the reported PU number of worker k belongs to the (core, pu) pair its mask was built from */
 __CPROVER_ensures(K_SHAPE && SAME_PAIR)
 /* with the process mask on, worker k is bound to a PU inside it */
 __CPROVER_ensures(IN_MASK(use_process_mask))
+__CPROVER_assigns(OUT_FRAME, PI_FRAME, ERR_FRAME, num_pus->size)
+//@LIFT body
+#define DECODE decode_numabalanced_distribution
+#endif
+
+#ifdef U_NUMA_BOUNDS
+//@FUNC
+void decode_numabalanced_distribution(struct topo *t, struct maskvec *affinities, size_t used_cores, size_t max_cores,
+                                      struct szvec *num_pus, bool use_process_mask, struct error_code *ec)
+__CPROVER_requires(!vx_exc && g_errors == 0 && ec->value == pika_error_success && !g_invalid_pair)
+/* thread counts are bounded so that the per-socket shares cannot wrap around */
+__CPROVER_requires(affinities->size <= VX_BIG)
+/* (every vector access in bounds: obligations inside the vector stubs) */
+/* num_pus has one entry per worker */
+__CPROVER_ensures(vx_exc || num_pus->size == affinities->size)
 /* oversubscription is rejected with an error */
 __CPROVER_ensures((affinities->size > (use_process_mask ? g_proc_count : g_hw_conc)) ==> ERROR_VISIBLE(ec))
 __CPROVER_ensures((g_errors != 0) == ERROR_VISIBLE(ec))
@@ -159,7 +171,7 @@ void harness(void)
   struct szvec npu;
   aff.size = nondet_size();
   npu.size = nondet_size();
-#ifdef U_NUMA
+#if defined(U_NUMA_PAIR) || defined(U_NUMA_BOUNDS)
   VX_ASSUME(aff.size <= VX_BIG);
 #endif
   size_t used_cores = nondet_size(), max_cores = nondet_size();
